@@ -14,7 +14,9 @@ SPEC = {
             "end a healthy writer commits. Coq decides for the event list (a) correspondence: it is a history of the whole-history "
             "model C02/History.v (C02.History.corr_case: every call well-formed, every crash observation among the model's "
             "outcomes at some micro-operation boundary consistent with the observed 'whole call ran' / 'log sync completed' "
-            "flags, final contents equal) and (b) the executable specification C02.Model.spec: queue bounds at every crash, "
+            "flags, final contents equal; C02.History.traces_run: the operations every completed call performs on wal.log - "
+            "append, fsync, truncate, cut - are, in order, the micro-operations of the model for that call, so a dropped or "
+            "reordered log sync breaks the correspondence whether or not a crash lands in the window) and (b) the executable specification C02.Model.spec: queue bounds at every crash, "
             "allowed contents, final contents. Every case contains at least one crash; distinct = distinct event lists",
     "trusted_base": [
         "file-system rules of DESIGN.md 3.3 as implemented by harness/src/crashfs.rs (no real crash happens)",
